@@ -716,6 +716,15 @@ func WithUnreferencedTypes(rt *rapid.T, root *J) *J {
 		ms := genMembers(rt, fmt.Sprintf("unref%d", i), all, -1, false)
 		tn.Set(name, membersNode(ms))
 	}
+	// nothing references these definitions, so nothing they say can matter - including a member of a
+	// struct type that is defined nowhere, or of a type no grammar knows
+	if rapid.IntRange(0, 2).Draw(rt, "unref.odd") == 0 {
+		def := tn.Get(fresh[rapid.IntRange(0, len(fresh)-1).Draw(rt, "unref.oddIn")])
+		if def != nil && def.Kind == 'a' {
+			odd := rapid.SampledFrom([]string{"NowhereDefined", "NowhereDefined[]", "Nowhere[2][]", "uint12", "bytes33", "tuple", "fixed128x18", "function", "int", "uint"}).Draw(rt, "unref.oddType")
+			def.Vals = append(def.Vals, eip712ref.JObj().Set("name", eip712ref.JStr("oddMember")).Set("type", eip712ref.JStr(odd)))
+		}
+	}
 	return c
 }
 
